@@ -43,6 +43,7 @@ RustPrim(n) ==
     CASE n = "bool" -> [cat |-> "bool", signed |-> FALSE, bits |-> 0]
       [] n \in {"String", "str", "char"} -> [cat |-> "string", signed |-> FALSE, bits |-> 0]
       [] n = "unit" -> [cat |-> "unit", signed |-> FALSE, bits |-> 0]
+      [] n = "DateTime" -> [cat |-> "datetime", signed |-> FALSE, bits |-> 0]      \* time::OffsetDateTime (refused by Kotlin / Swift / Scala)
       [] n = "i8" -> [cat |-> "int", signed |-> TRUE, bits |-> 8]
       [] n = "i16" -> [cat |-> "int", signed |-> TRUE, bits |-> 16]
       [] n = "i32" -> [cat |-> "int", signed |-> TRUE, bits |-> 32]
@@ -61,7 +62,7 @@ Unknown == TP("unknown", FALSE, 0)
 TargetPrim(lang, n) ==
     CASE lang = "typescript" ->
             (CASE n = "string" -> TP("string", FALSE, 0) [] n = "number" -> TP("number", TRUE, 54) [] n = "boolean" -> TP("bool", FALSE, 0)
-               [] n = "undefined" -> TP("unit", FALSE, 0) [] OTHER -> Unknown)
+               [] n = "undefined" -> TP("unit", FALSE, 0) [] n = "Date" -> TP("datetime", FALSE, 0) [] OTHER -> Unknown)
       [] lang \in {"kotlin", "scala"} ->
             (CASE n = "String" -> TP("string", FALSE, 0) [] n = "Boolean" -> TP("bool", FALSE, 0) [] n = "Unit" -> TP("unit", FALSE, 0)
                [] n = "Byte" -> TP("int", TRUE, 8) [] n = "Short" -> TP("int", TRUE, 16) [] n = "Int" -> TP("int", TRUE, 32) [] n = "Long" -> TP("int", TRUE, 64)
@@ -79,17 +80,17 @@ TargetPrim(lang, n) ==
             (CASE n = "string" -> TP("string", FALSE, 0) [] n = "bool" -> TP("bool", FALSE, 0) [] n = "struct{}" -> TP("unit", FALSE, 0)
                [] n = "int8" -> TP("int", TRUE, 8) [] n = "int16" -> TP("int", TRUE, 16) [] n \in {"int32", "rune", "int"} -> TP("int", TRUE, 32) [] n = "int64" -> TP("int", TRUE, 64)
                [] n \in {"uint8", "byte"} -> TP("int", FALSE, 8) [] n = "uint16" -> TP("int", FALSE, 16) [] n \in {"uint32", "uint"} -> TP("int", FALSE, 32) [] n = "uint64" -> TP("int", FALSE, 64)
-               [] n = "float32" -> TP("float", TRUE, 32) [] n = "float64" -> TP("float", TRUE, 64)
+               [] n = "float32" -> TP("float", TRUE, 32) [] n = "float64" -> TP("float", TRUE, 64) [] n = "time.Time" -> TP("datetime", FALSE, 0)
                [] OTHER -> Unknown)
       [] lang = "python" ->
             (CASE n = "str" -> TP("string", FALSE, 0) [] n = "bool" -> TP("bool", FALSE, 0) [] n = "None" -> TP("unit", FALSE, 0)
-               [] n = "int" -> TP("int", TRUE, 128) [] n = "float" -> TP("float", TRUE, 64)
+               [] n = "int" -> TP("int", TRUE, 128) [] n = "float" -> TP("float", TRUE, 64) [] n = "datetime" -> TP("datetime", FALSE, 0)
                [] OTHER -> Unknown)
       [] OTHER -> Unknown
 
 \* the target type has the same JSON category and can hold every value of the Rust type
 Holds(tp, rp) ==
-    CASE rp.cat \in {"bool", "string", "unit"} -> tp.cat = rp.cat
+    CASE rp.cat \in {"bool", "string", "unit", "datetime"} -> tp.cat = rp.cat
       [] rp.cat = "float" -> tp.cat \in {"float", "number"} /\ (tp.cat = "number" \/ tp.bits >= rp.bits)
       [] rp.cat = "int" ->
             \/ tp.cat = "number" /\ rp.bits <= (IF rp.signed THEN 54 ELSE 53)
